@@ -679,6 +679,10 @@ HLIstaccess(accrec_t *access_rec, int16 acc_mode)
         UINT16DECODE(p, info->link_ref);
     }
 
+    /* a description record that was only partly written cannot be used */
+    if (info->length < 0 || info->block_length <= 0 || info->number_blocks <= 0)
+        HGOTO_ERROR(DFE_INTERNAL, FAIL);
+
     /* get the block length and number of blocks */
     access_rec->block_size = info->block_length;
     access_rec->num_blocks = info->number_blocks;
@@ -985,8 +989,13 @@ HLIgetlink(int32 file_id, uint16 ref, int32 number_blocks)
 
     /* read block table into buffer */
     access_id = Hstartread(file_id, tag, ref);
-    if (access_id == FAIL || Hread(access_id, 2 + 2 * number_blocks, buffer) == FAIL)
+    if (access_id == FAIL)
         HGOTO_ERROR(DFE_READERROR, NULL);
+    /* the whole table has to be there */
+    if (Hread(access_id, 2 + 2 * number_blocks, buffer) != 2 + 2 * number_blocks) {
+        Hendaccess(access_id);
+        HGOTO_ERROR(DFE_READERROR, NULL);
+    }
 
     /* decode block table information read from file */
     {
@@ -1128,6 +1137,9 @@ HLPread(accrec_t *access_rec, int32 length, void *datap)
                 HGOTO_ERROR(DFE_INTERNAL, FAIL);
             t_link = t_link->next;
         }
+        /* the element may claim more data than it has block tables (an interrupted extension) */
+        if (t_link == NULL)
+            HGOTO_ERROR(DFE_INTERNAL, FAIL);
     }
     block_idx %= info->number_blocks;
 
